@@ -6,6 +6,8 @@ import (
 	"go/parser"
 	"go/token"
 	"go/types"
+	"sort"
+	"strconv"
 	"strings"
 
 	"golang.org/x/tools/go/ssa"
@@ -57,19 +59,40 @@ func (fr *frame) call(cc *ssa.CallCommon, st *State, reach *string, instr ssa.In
 		}
 		for key, cls := range fr.c.Before {
 			// "before SendProbe" and "before TracerouteDriver.SendProbe" both name the method SendProbe
-			short := key
-			if i := strings.LastIndex(key, "."); i >= 0 {
-				short = key[i+1:]
+			// "before F#2": only the second call site of F in this function, in source order
+			base, ord := key, 0
+			if i := strings.LastIndex(key, "#"); i >= 0 {
+				if n, err := strconv.Atoi(key[i+1:]); err == nil {
+					base, ord = key[:i], n
+				}
 			}
-			if name == "" || (key != name && short != name) {
+			short := base
+			if i := strings.LastIndex(base, "."); i >= 0 {
+				short = base[i+1:]
+			}
+			if name == "" || (base != name && short != name) {
+				continue
+			}
+			if ord > 0 && callSiteOrdinal(fr.fn, instr, name) != ord {
 				continue
 			}
 			if ex.beforeHit == nil {
 				ex.beforeHit = map[string]bool{}
 			}
 			ex.beforeHit[key] = true
+			// callarg0, callarg1, …: the arguments of the call about to be made (receiver not counted)
+			extra := map[string]Val{}
+			cargs := cc.Args
+			if !cc.IsInvoke() && cc.Signature().Recv() != nil && len(cargs) > 0 {
+				cargs = cargs[1:]
+			}
+			for i, a := range cargs {
+				v := fr.val(a)
+				v.T = a.Type()
+				extra[fmt.Sprintf("callarg%d", i)] = v
+			}
 			for _, cl := range cls {
-				g := fr.evalClause(cl, instr.Block(), st, nil)
+				g := fr.evalClause(cl, instr.Block(), st, extra)
 				ex.oblige(fr.label("before."+name+"."+cl.Label), "assert", cl.Props, imp(*reach, g), cl.Pos, cl.Text)
 			}
 		}
@@ -975,4 +998,35 @@ func (fr *frame) frameGoals(st *State, only map[string]bool) []string {
 		}
 	}
 	return goals
+}
+
+// callSiteOrdinal: the 1-based position, in source order, of instr among the call sites of the function or method
+// called name in fn.
+func callSiteOrdinal(fn *ssa.Function, instr ssa.Instruction, name string) int {
+	var ps []token.Pos
+	for _, b := range fn.Blocks {
+		for _, ins := range b.Instrs {
+			ci, ok := ins.(ssa.CallInstruction)
+			if !ok {
+				continue
+			}
+			cc := ci.Common()
+			n := ""
+			if cc.IsInvoke() {
+				n = cc.Method.Name()
+			} else if f := cc.StaticCallee(); f != nil {
+				n = f.Name()
+			}
+			if n == name {
+				ps = append(ps, ins.Pos())
+			}
+		}
+	}
+	sort.Slice(ps, func(i, j int) bool { return ps[i] < ps[j] })
+	for i, p := range ps {
+		if p == instr.Pos() {
+			return i + 1
+		}
+	}
+	return 0
 }
